@@ -41,11 +41,14 @@ def drop(wd):
     shutil.rmtree(wd, ignore_errors=True)
 
 
-def verify(pid, letter, tests=True):
-    src = Path(f"/tmp/seeded-out/{pid}")
+def verify(pid, letter, tests=True, srcdir="/tmp/seeded-out", store_as=None):
+    src = Path(srcdir) / pid
     patch, demo = src / f"patch_{letter}.diff", src / f"demo_{letter}.py"
-    meta = json.load(open(src / "meta.json")) if (src / "meta.json").exists() else {}
-    name = f"{pid}-{letter}"
+    try:
+        meta = json.load(open(src / "meta.json")) if (src / "meta.json").exists() else {}
+    except Exception:
+        meta = {}
+    name = f"{pid}-{store_as or letter}"
     wd = scratch(name)
     report = {"name": name, "property": pid}
     try:
@@ -123,7 +126,8 @@ def run_checks(name, in_repo=False):
 def main():
     cmd = sys.argv[1]
     if cmd == "verify":
-        rep = verify(sys.argv[2], sys.argv[3], tests="--no-tests" not in sys.argv)
+        opt = {a.split("=")[0]: a.split("=")[1] for a in sys.argv[4:] if "=" in a}
+        rep = verify(sys.argv[2], sys.argv[3], tests="--no-tests" not in sys.argv, srcdir=opt.get("--src", "/tmp/seeded-out"), store_as=opt.get("--as"))
         print(json.dumps(rep, indent=1))
     elif cmd in ("run", "run-in-repo"):
         names = [a for a in sys.argv[2:] if not a.startswith("--")] or sorted(p.name for p in (VERIF / "seeded").iterdir() if p.is_dir())
